@@ -5,13 +5,17 @@ LOOP_SWAP = ["eventloop_unix.go", "connection_unix.go", "connection_linux.go", "
              "pkg/socket/sock_cloexec.go", "pkg/socket/fd_unix.go"]
 
 
+LOOP_SWAP_OPT = [f if f != "pkg/netpoll/poller_epoll_default.go" else "pkg/netpoll/poller_epoll_ultimate.go" for f in LOOP_SWAP]
+
+
 def drv(focus, n=None, tags="verif"):
     """one drv-loop run: focus = stream | fault | udp | client | stale; tags may add gc_opt (matrix registry)"""
     args = ["-focus", focus]
     if n:
         args += ["-n", str(n)]
-    variant = focus + ("-gcopt" if "gc_opt" in tags else "")
-    return dict(cmd="drv-loop", family="loop", variant=variant, unix_swap=LOOP_SWAP, shrink=False,
+    variant = focus + ("-gcopt" if "gc_opt" in tags else "") + ("-pollopt" if "poll_opt" in tags else "")
+    return dict(cmd="drv-loop", family="loop", variant=variant,
+                unix_swap=(LOOP_SWAP_OPT if "poll_opt" in tags else LOOP_SWAP), shrink=False,
                 args=args, tags=tags, timeout=dict(quick=600, thorough=3000))
 
 
